@@ -170,7 +170,10 @@ class NumpyBackendProvider(BackendProvider):
             arg_src = self._ir_to_source(arg)
             if arg_src is None:
                 return None
-            method = {'+': 'np.cumsum', '*': 'np.cumprod'}.get(op)
+            # ufunc.accumulate is what the interpreter's Scan-Over uses: it scans along
+            # the first axis (np.cumsum/np.cumprod flatten matrices) and refuses a
+            # scalar, so the interpreter handles atoms.
+            method = {'+': 'np.add.accumulate', '*': 'np.multiply.accumulate'}.get(op)
             if method is None:
                 return None  # |\ and &\ not supported in numpy
             return f'{method}({arg_src})'
